@@ -4395,7 +4395,10 @@ where
             }
           }
           #[cfg(feature = "additional-controls")]
-          None | Some(ControlOperator::FEATURE) => {
+          None
+          | Some(ControlOperator::FEATURE)
+          | Some(ControlOperator::AND)
+          | Some(ControlOperator::WITHIN) => {
             if i128::from(*i) == *v as i128 {
               None
             } else {
@@ -4403,7 +4406,7 @@ where
             }
           }
           #[cfg(not(feature = "additional-controls"))]
-          None => {
+          None | Some(ControlOperator::AND) | Some(ControlOperator::WITHIN) => {
             if i128::from(*i) == *v as i128 {
               None
             } else {
@@ -4451,7 +4454,10 @@ where
             }
           }
           #[cfg(feature = "additional-controls")]
-          None | Some(ControlOperator::FEATURE) => {
+          None
+          | Some(ControlOperator::FEATURE)
+          | Some(ControlOperator::AND)
+          | Some(ControlOperator::WITHIN) => {
             if i128::from(*i) == *v as i128 {
               None
             } else {
@@ -4459,7 +4465,7 @@ where
             }
           }
           #[cfg(not(feature = "additional-controls"))]
-          None => {
+          None | Some(ControlOperator::AND) | Some(ControlOperator::WITHIN) => {
             if i128::from(*i) == *v as i128 {
               None
             } else {
@@ -4496,7 +4502,10 @@ where
             }
           }
           #[cfg(feature = "additional-controls")]
-          None | Some(ControlOperator::FEATURE) => {
+          None
+          | Some(ControlOperator::FEATURE)
+          | Some(ControlOperator::AND)
+          | Some(ControlOperator::WITHIN) => {
             if (*f - *v).abs() < f64::EPSILON {
               None
             } else {
@@ -4504,7 +4513,7 @@ where
             }
           }
           #[cfg(not(feature = "additional-controls"))]
-          None => {
+          None | Some(ControlOperator::AND) | Some(ControlOperator::WITHIN) => {
             if (*f - *v).abs() < f64::EPSILON {
               None
             } else {
